@@ -361,6 +361,8 @@ public:
 	bool operator==(const splinetable& other) const{
 		if (ndim != other.ndim)
 			return false;
+		if (ndim == 0) //both tables are empty, and have no arrays to compare
+			return true;
 		if (!std::equal(order,order+ndim,other.order))
 			return false;
 		if (!std::equal(naxes,naxes+ndim,other.naxes))
